@@ -118,7 +118,7 @@ func init() {
 		},
 		NotCovered: []string{
 			"the legacy JSON branches: json.Unmarshal fills the Go value directly, there is no field-by-field code to put under contract",
-			"the byte-level round trip of the hand-written binary codec of the output store (messageBatch.marshal / unmarshalMessageBatch) needs a recursive description of a variable-length byte layout, which this generator does not reach; what is proved about it is only that every decoded message owns a fresh recipient map distinct from all others",
+			"the byte-level round trip of the hand-written binary codec of the output store (messageBatch.marshal / unmarshalMessageBatch) needs a recursive description of a variable-length byte layout, which this generator does not reach; what is proved about it is only that every decoded message owns a fresh recipient map distinct from all others. A labelled BOUNDED stand-in runs the real marshal+unmarshal on every batch within the bound listed under bounded_standins (not a proof, not counted)",
 		},
 	}
 	p.Prepare = func(e *vc.Engine) error {
@@ -133,6 +133,7 @@ func init() {
 		return nil
 	}
 	p.Structural = sameEntrySweep
+	p.BoundedRun = codecBounded
 	p.ExtraUnits = func(e *vc.Engine) ([]*vc.Unit, error) { return lemmaUnits(e, "robust", "robust.lemma_encoders_agree") }
 	register(p)
 }
